@@ -2687,9 +2687,18 @@ ABTU_ret_err int ABTI_thread_handle_request_migrate(ABTI_global *p_global,
         ABTI_thread_get_mig_data(p_global, p_local, p_thread, &p_mig_data);
     ABTI_CHECK_ERROR(abt_errno);
 
+    /* Unset the migration request before reading its argument.  A request that
+     * is issued while this one is being handled stores p_migration_pool and
+     * then sets the request again; if the request were cleared at the end, that
+     * new request would be lost although it was accepted. */
+    ABTI_thread_unset_request(p_thread, ABTI_THREAD_REQ_MIGRATE);
+
     /* Extracting an argument embedded in a migration request. */
     ABTI_pool *p_pool =
         ABTD_atomic_relaxed_load_ptr(&p_mig_data->p_migration_pool);
+    /* The target has already been reached if a repeated request was served
+     * together with the previous one. */
+    ABTI_CHECK_TRUE(p_pool != p_thread->p_pool, ABT_ERR_MIGRATION_TARGET);
 
     /* Change the associated pool */
     abt_errno = ABTI_thread_set_associated_pool(p_global, p_thread, p_pool);
@@ -2699,8 +2708,6 @@ ABTU_ret_err int ABTI_thread_handle_request_migrate(ABTI_global *p_global,
         ABT_thread thread = ABTI_thread_get_handle(p_thread);
         p_mig_data->f_migration_cb(thread, p_mig_data->p_migration_cb_arg);
     }
-    /* Unset the migration request. */
-    ABTI_thread_unset_request(p_thread, ABTI_THREAD_REQ_MIGRATE);
     return ABT_SUCCESS;
 }
 
